@@ -155,7 +155,21 @@ def build_check(cs, dtype=None):
         return C.str_length(a.get("min_value"), a.get("max_value"), **kw)
     if k == "unique_values_eq":
         return C.unique_values_eq([_arg(v, dtype) for v in a["values"]], **kw)
+    if k == "col_ge":
+        # a user-written row-wise dataframe check; several of them share one code object and differ in their closure
+        return C(_col_ge(a["column"], a["min_value"]), **kw)
     raise ValueError(k)
+
+
+def _col_ge(column, min_value):
+    def col_ge(df):
+        if type(df).__module__.startswith("pandera.api.polars"):
+            import polars as pl
+
+            return df.lazyframe.select(pl.col(column).ge(min_value))
+        return df[column] >= min_value
+
+    return col_ge
 
 
 def _default(col):
